@@ -600,7 +600,7 @@ func (e *Engine) decide(s *State, c *Term) *Term {
 }
 
 // NoModelReuse disables answering feasibility questions from a cached model (diagnostics).
-var NoModelReuse = false
+var NoModelReuse = os.Getenv("GOSYM_NOMODEL") != ""
 
 // applyOutcomes continues s with the outcomes of the instruction `in` whose result value is res (may be nil).
 func (e *Engine) applyOutcomes(s *State, fr *Frame, res ssa.Value, outs []Outcome) []*State {
